@@ -19,7 +19,7 @@ inductive Op where
   | setChild (h : Nat) (name : String) (idx : Int) (c : Val) (o : Opts)
   | pathOf (h : Nat)                                              -- Path(".")
   | setChildNil (h : Nat)                                         -- SetChild(name, idx, nil)
-  | setChildHandle (h : Nat) (k : Nat)                            -- SetChild with the config behind handle k as the child
+  | setChildHandle (h : Nat) (k : Nat) (name : String) (idx : Int) (o : Opts)   -- SetChild with the config behind handle k as the child
   | remove (h : Nat) (name : String) (idx : Int) (o : Opts)
   | merge (h : Nat) (frm : GoData) (o : Opts)
   | child (h : Nat) (name : String) (idx : Int) (o : Opts)
@@ -64,6 +64,17 @@ def putAt : Val → List Field → Val → Option Val
     | .idx i => if i < 0 then none else
         (a[i.toNat]?).bind (fun c => (putAt c rest n).map (fun c' => .sub d (a.set i.toNat c') hd ha))
   | _, _ :: _, _ => none
+
+/-- walking `via` below the node at `pre` (path.go cfgPath.SetValue, phase 1) runs into a value that is neither an object
+nor missing/null: the walk does not end in a config -/
+def blockedWalk (root : Val) (pre : List Field) : List Field → Bool
+  | [] => false
+  | f :: r =>
+    match nodeAt root (pre ++ [f]) with
+    | none => false
+    | some (.sub ..) => blockedWalk root (pre ++ [f]) r
+    | some (.prim .nil) => false
+    | some _ => true
 
 def invalidHandle {α : Type} : Outcome α :=
   .err { reason := .other, typed := false, msg := some "MODEL-UNSUPPORTED handle does not address a node" }
@@ -127,11 +138,17 @@ def opStep (std : Stdlib) (s : OpState) (op : Op) : Outcome OpOut × OpState :=
      | some p => (.ok (.str (pathString p ".")), s)
      | none => (invalidHandle, s))
   | .setChildNil _ => (.err { reason := .nilValue }, s)
-  | .setChildHandle h k =>
-    -- a config can not become a setting of itself or below itself: the receiver's own chain of parents is refused;
-    -- attaching any other existing config is outside this model (a node attached twice: known finding D20)
+  | .setChildHandle h k name idx o =>
+    -- a config can not become a setting of itself or below itself: every config on the way from the root to the place
+    -- the child would be stored at - the receiver's parents, the receiver, and the objects the name leads through
+    -- below it - is refused; attaching any other existing config is outside this model (a node attached twice: known
+    -- finding D20)
     match s.handles[h]?, s.handles[k]? with
-    | some ph, some pk => if pk.isPrefixOf ph then (.err { reason := .cyclic }, s) else (invalidHandle, s)
+    | some ph, some pk =>
+      let via := (parsePathIdx name idx o).dropLast
+      -- (when the name runs into a value that is no object, the place does not exist: that is SetValue's error to report)
+      if pk.isPrefixOf ph || (pk.isPrefixOf (ph ++ via) && !blockedWalk s.root ph via) then (.err { reason := .cyclic }, s)
+      else (invalidHandle, s)
     | _, _ => (invalidHandle, s)
   | .remove h name idx o =>
     let (out, s') := withNode h fun node _ =>
